@@ -83,7 +83,8 @@ PROPS = {
                       "only below the root), C01_conn_ok, C01_outside_untouched, over the session model.",
     },
     "C02": {
-        "jobs": [sess_job(140, 2500, keep_ops=["open_file", "read_file", "read_critical"])],
+        "jobs": [sess_job(140, 2500, keep_ops=["open_file", "read_file", "read_critical"]),
+                 {"cmd": "views", "quick": 60, "thorough": 3000, "timeout": 3000}],
         "rule": SESS_RULE, "assumptions": SESS_ASSUME,
         "partial": ["generated images and decrypted views as the opened object are covered by C09/C10 (reader contract); "
                     "sparse files past 4 GiB are exercised by the direct oracle only"],
@@ -147,13 +148,14 @@ PROPS = {
                       "EncryptedISO.ReadAt; key derivation and IV layout are checked by the independent decryptor in the differential.",
     },
     "C11": {
-        "jobs": [{"cmd": "detect", "quick": 600, "thorough": 20000, "timeout": 3000}],
+        "jobs": [{"cmd": "detect", "quick": 600, "thorough": 20000, "timeout": 3000},
+                 {"cmd": "views", "quick": 60, "thorough": 3000, "timeout": 3000}],
         "rule": "random points of the product: directory name case (PS3ISO/ps3iso/Ps3Iso/other) x extension case (.iso/.ISO/.Iso/.bin/none) x nesting x key "
                 "situation (none, adjacent, REDKEY, both with different keys, malformed, too short, adjacent is a directory) x watermark (none, encrypted, "
                 "decrypted) x file length (16 KiB, around 0xF6F..0x1071, tiny) x valid/invalid region table; opened through FS.Open, read at 7 windows "
                 "overlapping 0xF70..0x1070 and the encrypted sectors (ReadAt or Seek+ReadFull); non-trivial = key lookup applies or a watermark is present",
         "assumptions": ["strings.ToLower is modelled on ASCII only", "the dec tables (one per candidate key) come from the harness' own decryptor"],
-        "partial": ["the wire path for encrypted and masked views is exercised by the direct oracle of the hostile/C04 jobs, not by the session model"],
+        "partial": ["the wire path for encrypted and masked views is decided by job views (every object opened and read over a real connection against the harness' own reference views), not by the session model"],
         "level_text": "Theorems C11_decision (the decision chain), C11_key_scope, C11_precedence (adjacent key > REDKEY key > embedded 3k3y key), C11_key_file, "
                       "C11_passthrough, C11_mask (exactly [0xF70,0x1070) is zeroed for every read window), C11_enc (keyed view = C10 reference plaintext; 3k3y = "
                       "decrypt then mask), over the model of FS.OpenFile / tryGetRedumpKey / ReadKeyFile / Test3k3yImage / ISO3k3y.",
